@@ -99,9 +99,19 @@ class M(ast.NodeTransformer):
 def make_mutant(src, kind, target):
     tree = ast.parse(src)
     idx = 0
+    ctx = ""
     for node in ast.walk(tree):
         node._fz = idx
         idx += 1
+        for ch in ast.iter_child_nodes(node):
+            ch._par = node
+    for node in ast.walk(tree):
+        if node._fz == target:
+            p_ = node
+            while p_ is not None and not isinstance(p_, ast.stmt):
+                p_ = getattr(p_, "_par", None)
+            if p_ is not None:
+                ctx = ast.unparse(p_).split("\n")[0][:110]
     m = M(kind, target)
     new = m.visit(tree)
     ast.fix_missing_locations(new)
@@ -112,7 +122,7 @@ def make_mutant(src, kind, target):
         ast.parse(text)
     except Exception:
         return None, None
-    return text, m.descr
+    return text, m.descr + (f"   @ `{ctx}`" if kind in ("const", "bool", "neg", "cmp") else "")
 
 
 def _run(args):
